@@ -42,8 +42,16 @@ def tree_digest():
     return h.hexdigest()[:16]
 
 
-def run_pool(name, tier, d):
-    profile, allow, nq, nt, off = POOLS[name]
+MANAGER_POOLS = {
+ "manager-general": ("general", "", 96, 1500, 200000),
+ "manager-members": ("members", "", 72, 1000, 220000),
+ "manager-life": ("life", "", 48, 800, 240000),
+ "manager-hand": ("hand", "", 72, 1000, 260000),
+}
+
+
+def run_pool(name, tier, d, via=None):
+    profile, allow, nq, nt, off = (MANAGER_POOLS if via else POOLS)[name]
     n = nq if tier == "quick" else nt
     procs = 48 if n >= 96 else max(1, n // 2)
     if name == "kf-midhand-leave":
@@ -56,6 +64,8 @@ def run_pool(name, tier, d):
         cmd = [VH, "table", "--from", str(base + i * per + 1), "--count", str(per), "--profile", profile, "--out", out]
         if allow:
             cmd += ["--allow", allow]
+        if via:
+            cmd += ["--via", via]
         jobs.append((cmd, out))
 
     def run(job):
@@ -298,3 +308,40 @@ def table_check(prop, tier, replay):
 
 for _p in TABLE_PROPS:
     register(_p)(table_check)
+
+
+@register("C17")
+def check_c17(prop, tier, replay):
+    """Every manager operation = the engine operation on that table, nothing else touched, unknown ids refused.
+    The scenario pools of the table family are replayed THROUGH a pokertable.Manager (the driver's engine handle is a
+    wrapper that calls m.<Method>(tableID, ...)), next to two bystander tables; every clause of the table property layer
+    is then an effect predicate for the manager method that produced the line (a method forwarding to the wrong engine
+    call, or with permuted arguments, fails the clause for that call), bystander tables' JSON is compared across every
+    call, and every method is probed with a never-created id and with the own id after Close/Release."""
+    ck = Check(prop, tier)
+    build_harness()
+    pool = ThreadPoolExecutor(max_workers=1)
+    fut = pool.submit(lambda: tlc_mc("ManagerMC.tla", "MGR_mc.cfg", 6, 1200))
+    d = scratch("mgr")
+    methods = {}
+    for name in MANAGER_POOLS:
+        path, summ, crashed = run_pool(name, tier, d, via="manager")
+        tr = tlc_trace("TableTrace.tla", "TableTrace.cfg", path, timeout=3000, parts=14, by_trace=True)
+        ck.cov["trace_lines"] += tr["lines"]
+        ck.cov["traces_validated_against_impl"] += summ.get("scenarios", 0)
+        ck.cov.setdefault("pools", []).append({"pool": name, "scenarios": summ.get("scenarios", 0), "lines": tr["lines"], "crashed_workers": len(crashed)})
+        ck.route(["C"], tr, path, "vh table --via manager, pool " + name)
+        with open(path) as f:
+            for l in f:
+                if l.startswith('{"tr"') and ('"ev":"ret:' in l[:60] or '"ev":"mgrprobe"' in l[:60]):
+                    dd = json.loads(l)
+                    m = dd["ev"][4:] if dd["ev"].startswith("ret:") else "probe:" + dd["a"]["kind"]
+                    methods[m] = methods.get(m, 0) + 1
+        ck.cov["samples"] += sample_lines(path)[:1]
+    ck.cov["manager_methods_exercised"] = methods
+    r = fut.result()
+    require_mc(r, "ManagerMC")
+    ck.add_model(r, "registry model: forwarding, isolation, not-found")
+    ck.assumptions = ["the manager builds its own engine with the native backend, so backend-call clauses (spy lines) are not available in this mode",
+                      "known findings of the engine itself are matched by their signatures exactly as in the direct pools"]
+    return ck.finish({"explanation": "traces_validated_against_impl = scenarios driven through the Manager API next to bystander tables"})
